@@ -3,8 +3,9 @@ import WindVerif.Proofs.PoolLive
 /-!
 A finite `join_timeout` (`Cfg.joinTimeout`): `p.join(timeout=…)` in `ReplaceWorkerThread.run` and in `FunctorPool.__exit__`
 returns after the timeout whether the worker has exited or not.  A retiring worker posts its wid to the replace queue and
-only then runs `end()` (the `finally:` of `run`) — with a timed join this is a step of its own (`WPc.ending`), so the successor
-can be started while the retired worker is still running, and `__exit__` can return while a worker is still running.
+only then runs `end()` (the `finally:` of `run`) — a step of its own (`WPc.ending`, in every configuration) —, so with a timed
+join the successor can be started while the retired worker is still running, and `__exit__` can return while a worker is still
+running.
 
 * witnesses (explicit schedules, checked by evaluation): `successor_while_retired_runs`,
   `exit_returns_with_running_worker`, `exit_skip_running_worker` (the last two are the counterexamples because of which
@@ -171,7 +172,7 @@ theorem retired_still_ends (cfg : Cfg) (_hjt : cfg.joinTimeout = true) (s : St) 
   refine ⟨(c4 hpc).2, ?_⟩
   obtain ⟨hI, _⟩ := LInv_reach h
   have hg := getWorker_of_mem hI.nodup hw
-  refine ⟨setWorker s (workerExit w false), ?_, workerExit w false, ?_, rfl, rfl, rfl⟩
+  refine ⟨setWorker s (workerExit w w.crashed), ?_, workerExit w w.crashed, ?_, rfl, rfl, rfl⟩
   · show stepW s w.wid = _
     unfold stepW; rw [hg]; simp only [hpc]
   · rw [setWorker_workers]
